@@ -249,13 +249,13 @@ func AttackCase(c *core.Case, prop string) {
 func LiveCase(c *core.Case, prop string) {
 	run := c.Run
 	r := c.R
-	n := 4 + r.Intn(2)
+	n := 4 + r.Intn(4)
 	powers := make([]int64, n)
 	for i := range powers {
 		powers[i] = 20 + 10*int64(r.Intn(3))
 	}
 	al := NewAlarms()
-	net, res, err := RunLive(LiveOpts{N: n, Powers: powers, Heights: uint64(6 + r.Intn(6)), MaxWall: 120 * time.Second, Fuzz: false}, al)
+	net, res, err := RunLive(LiveOpts{N: n, Powers: powers, Heights: uint64(6 + r.Intn(12)), MaxWall: 120 * time.Second, Fuzz: false}, al)
 	if net != nil {
 		defer net.Close()
 	}
